@@ -173,9 +173,10 @@ def k2(ctx, kr):
         if pr.panic: _add(kr, 'C13/K2/panic', 'cli::tokenize panics: ' + pr.panic.msg[:60], {'tokenize_ok': tok}, None); return
         is_ok = pr.result.disc == 0; ndiag = sum(e[1] for e in ev if e[0] == 'diagnostics')
         # reachable outcomes depend on the iteration order; the contract is on what was examined: Ok <=> no examined file had errors, and an error is always reported
-        if is_ok and not all(tok): _add(kr, 'C13/K2/tokenize-error-forgotten', 'tokenize returns Ok although a file has lexical errors (%s)' % tok, {'tokenize_ok': tok}, None)
-        if not is_ok and ndiag == 0: _add(kr, 'C13/K2/tokenize-error-silent', 'tokenize fails without a diagnostic', {'tokenize_ok': tok}, None)
-        if not is_ok and all(tok): _add(kr, 'C13/K2/spurious-failure', 'tokenize fails although every file tokenizes', {'tokenize_ok': tok}, None)
+        if is_ok and not all(tok): _add(kr, 'C13/K2/tokenize-error-forgotten', 'tokenize returns Ok although a file has lexical errors (%s; the model file yields no tokens, only errors)' % tok, {'tokenize_ok': tok}, ('cli_tokenize', (tok,)))
+        if not is_ok and ndiag == 0: _add(kr, 'C13/K2/tokenize-error-silent', 'tokenize fails without a diagnostic', {'tokenize_ok': tok}, ('cli_tokenize', (tok,)))
+        if not is_ok and all(tok): _add(kr, 'C13/K2/spurious-failure', 'tokenize fails although every file tokenizes', {'tokenize_ok': tok}, ('cli_tokenize', (tok,)))
+        if len(kr.validate) < 2: kr.validate.append(('cli_tokenize', (tok,)))
         if len(kr.samples) < 3: kr.samples.append({'tokenize_ok': tok, 'result': 'Ok' if is_ok else 'Err', 'diagnostics': ndiag})
     M.explore(entry, on_path)
     kr.queries += M.stats['smt']
@@ -184,6 +185,20 @@ def k2(ctx, kr):
     kr.bounds = '2 sources, every combination of lexical outcomes and iteration orders'
     kr.exhaustive = True
 
+
+@replay_factory('cli_tokenize')
+def _replay_cli_tokenize(tok):
+    def rp(ctx):
+        # a file with lexical errors and no token at all (as in the model), and one with tokens around the error
+        bad = False; seen = []
+        for badtext in ('@', 'x := @ 1;\n'):
+            files = {('f%d.st' % i): (GOOD % i if okk else badtext) for i, okk in enumerate(tok)}
+            rc, out, err_ = ctx.ironplcc(['tokenize'], files)
+            expect_ok = all(tok); coded = bool(re.search(r'error\[P\d{4}\]', err_ + out))
+            seen.append({'bad_file_text': badtext, 'exit': rc, 'coded_diagnostic': coded, 'stdout_tail': out[-60:]})
+            if (rc == 0) != expect_ok or (not expect_ok and not coded): bad = True
+        return bad, {'tokenize_ok': tok, 'runs': seen}
+    return rp
 
 # ---------------------------------------------------------------------------------------------- K2b echo(): Ok <=> every file parses
 @kernel('K2b cli.echo_contract')
